@@ -132,36 +132,68 @@ def _exc(e):
 # members
 # ------------------------------------------------------------------------------------------------
 def make_members(chain, x_ref, kind, prot, base_ref=None):
-    """Walk the chain forward on the reference tree; returns (ref_members, specs) where specs hold what the real
-    constructors need (bounds as reference trees).  None if a Denormalize meets a tree without any leaf."""
-    cur = x_ref
-    refs, specs = [], []
-    occupied = False  # some Shared writes into a slot that holds a value at that stage: `-> None` is not its inverse
-    for m in chain:
-        if m[0] == "I":
-            rm, sp = R.RefId(), ("I",)
-        elif m[0] == "E":
-            rm, sp = R.RefExp(), ("E",)
-        elif m[0] == "D":
-            if not R.leaves(cur):
-                return None
-            j = m[1]
-            sh = R.shape_of(cur)
-            lo = R.fill(sh, lambda i: R.bound_values(kind, i, j, prot)[0])
-            hi = R.fill(sh, lambda i: R.bound_values(kind, i, j, prot)[1])
-            rm, sp = R.RefDen(lo, hi), ("D", lo, hi)
-        elif m[0] == "S":
-            w, r = [tuple(p) for p in m[1]], [tuple(p) for p in m[2]]
-            rm, sp = R.RefShared(w, r), ("S", w, r)
-            occupied = occupied or R.get_path(cur, w) is not None
-        elif m[0] == "X":
-            rm, sp = R.RefExtend(base_ref), ("X",)
-        else:
-            raise HarnessError(f"unknown member {m}")
-        refs.append(rm)
-        specs.append(sp)
-        cur = rm.apply(cur)
-    return refs, specs, occupied
+    """Walk the chain forward on the reference tree; returns (ref_members, specs, occupied) where specs hold what the
+    real constructors need (bounds as reference trees).  None if a Denormalize meets a tree without any leaf.
+    A member ["C", members] is a nested chain: its members are walked in place (bounds see the tree of their stage)."""
+    state = dict(cur=x_ref, occupied=False)  # occupied: some Shared writes into a slot that holds a value at that stage
+
+    def walk(ch):
+        refs, specs = [], []
+        for m in ch:
+            cur = state["cur"]
+            if m[0] == "C":
+                sub = walk(m[1])
+                if sub is None:
+                    return None
+                refs.append(R.RefChain(sub[0]))
+                specs.append(("C", sub[1]))
+                continue  # state["cur"] already advanced by the inner walk
+            if m[0] == "I":
+                rm, sp = R.RefId(), ("I",)
+            elif m[0] == "E":
+                rm, sp = R.RefExp(), ("E",)
+            elif m[0] == "D":
+                if not R.leaves(cur):
+                    return None
+                j = m[1]
+                sh = R.shape_of(cur)
+                lo = R.fill(sh, lambda i: R.bound_values(kind, i, j, prot)[0])
+                hi = R.fill(sh, lambda i: R.bound_values(kind, i, j, prot)[1])
+                rm, sp = R.RefDen(lo, hi), ("D", lo, hi)
+            elif m[0] == "S":
+                w, r = [tuple(p) for p in m[1]], [tuple(p) for p in m[2]]
+                rm, sp = R.RefShared(w, r), ("S", w, r)
+                state["occupied"] = state["occupied"] or R.get_path(cur, w) is not None
+            elif m[0] == "X":
+                rm, sp = R.RefExtend(base_ref), ("X",)
+            else:
+                raise HarnessError(f"unknown member {m}")
+            refs.append(rm)
+            specs.append(sp)
+            state["cur"] = rm.apply(cur)
+        return refs, specs
+
+    res = walk(chain)
+    if res is None:
+        return None
+    return res[0], res[1], state["occupied"]
+
+
+def n_members(chain):
+    return sum(n_members(m[1]) if m[0] == "C" else 1 for m in chain)
+
+
+class _WrongOrderChain(R.RefChain):
+    """Statistic only: a nested chain that inverts its members first-to-last (what the check must be able to notice)."""
+
+    def inv(self, t):
+        for m in self.members:
+            t = m.inv(t)
+        return t
+
+
+def _wrong_nested(refs):
+    return [_WrongOrderChain(_wrong_nested(m.members)) if isinstance(m, R.RefChain) else m for m in refs]
 
 
 def real_member(sp, kind, extend_args=None):
@@ -176,6 +208,8 @@ def real_member(sp, kind, extend_args=None):
         return b.Shared.init(where=mk_getter(sp[1]), replace_fn=mk_getter(sp[2]))
     if sp[0] == "X":
         return b.Extend.init(*extend_args)
+    if sp[0] == "C":
+        return b.Chain.init(*[real_member(x, kind, extend_args) for x in sp[1]])
     raise HarnessError(f"unknown member spec {sp[0]}")
 
 
@@ -214,7 +248,7 @@ def _differs(a, b):
 # case runners.  Each returns dict(viol=[(signature, what)], obs={...}, n=dict(counts))
 # ------------------------------------------------------------------------------------------------
 def _new():
-    return dict(viol=[], obs={}, n=dict(cases=0, elements=0, skipped_elements=0, real_calls=0, member_ops=0, order_sensitive=0, den_on_leafless=0, shared_slot_occupied=0))
+    return dict(viol=[], obs={}, n=dict(cases=0, elements=0, skipped_elements=0, real_calls=0, member_ops=0, order_sensitive=0, den_on_leafless=0, shared_slot_occupied=0, nested=0, nested_inner_inv_order_sensitive=0))
 
 
 def run_chain(case):
@@ -230,7 +264,7 @@ def run_chain(case):
         return out
     refs, specs, occupied = mm
     tag = f"{R.chain_str(chain)}"
-    sig_members = "".join(sorted({m[0] for m in chain})) or "empty"  # coarse, stable case class: which member kinds occur
+    sig_members = "".join(sorted(R.member_letters(chain))) or "empty"  # coarse, stable case class: which member kinds occur
     ctxs = f"shape={R.shape_str(shape)} kind={kind} chain={tag}"
 
     def viol(kind_, msgs):
@@ -252,7 +286,7 @@ def run_chain(case):
         viol("apply-raises", [_exc(e)])
         return out
     n["real_calls"] += 1
-    n["member_ops"] += len(chain)
+    n["member_ops"] += n_members(chain)
     c = Cmp()
     c.walk(y, y_ref)
     if c.bad:
@@ -279,7 +313,7 @@ def run_chain(case):
         viol("inv-raises", [_exc(e)])
         return out
     n["real_calls"] += 1
-    n["member_ops"] += len(chain)
+    n["member_ops"] += n_members(chain)
     c = Cmp()
     c.walk(z, tgt)
     if c.bad:
@@ -295,11 +329,20 @@ def run_chain(case):
         viol("inv-raises", [_exc(e)])
         return out
     n["real_calls"] += 1
-    n["member_ops"] += len(chain)
+    n["member_ops"] += n_members(chain)
     c = Cmp()
     c.walk(v, v_ref)
     if c.bad:
         viol("inv", c.bad)
+    if "C" in R.member_letters(chain):
+        # statistic: would a nested chain that inverts its own members first-to-last have been noticed (here or in the round trip)?
+        n["nested"] += 1
+        try:
+            wrong = _wrong_nested(refs)
+            sens = _differs(R.ref_inv_chain(wrong, w_ref), v_ref) or _differs(R.ref_inv_chain(wrong, y_ref), z_ref)
+        except (R.RefMismatch, KeyError, TypeError, IndexError):
+            sens = True
+        n["nested_inner_inv_order_sensitive"] += int(sens)
     n["elements"] += c.compared
     n["skipped_elements"] += c.skipped
     return out
@@ -310,12 +353,12 @@ def run_den(case):
     small dyadic rationals, every float32 operation involved is exact), strictly increasing in between."""
     out = _new()
     n = out["n"]
-    shape, kind, prot = case["shape"], case["kind"], case.get("prot", 0)
+    shape, kind, prot, narrow = case["shape"], case["kind"], case.get("prot", 0), bool(case.get("narrow"))
     b = ctx()["base"]
-    ctxs = f"shape={R.shape_str(shape)} kind={kind} prot={prot}"
+    ctxs = f"shape={R.shape_str(shape)} kind={kind} prot={prot}" + (" narrow bounds" if narrow else "")
 
     def viol(kind_, msgs):
-        out["viol"].append((f"den:{kind_}", f"{ctxs}: {kind_}: " + "; ".join(msgs[:3])))
+        out["viol"].append((f"den{'-narrow' if narrow else ''}:{kind_}", f"{ctxs}: {kind_}: " + "; ".join(msgs[:3])))
 
     sh_ref = R.fill(shape, lambda i: 0.0)
     if not R.leaves(sh_ref):
@@ -327,18 +370,23 @@ def run_den(case):
             out["obs"][f"den_init_on_leafless_tree:raises {type(e).__name__}"] = 1
         return out
     n["cases"] += 1
-    lo = R.fill(shape, lambda i: R.bound_values(kind, i, 0, prot)[0])
-    hi = R.fill(shape, lambda i: R.bound_values(kind, i, 0, prot)[1])
+    lo = R.fill(shape, lambda i: R.bound_values(kind, i, 0, prot, narrow)[0])
+    hi = R.fill(shape, lambda i: R.bound_values(kind, i, 0, prot, narrow)[1])
     rd = R.RefDen(lo, hi)
     try:
         T = b.Denormalize.init(build(lo, kind), build(hi, kind))
     except Exception as e:  # noqa
         viol("init-raises", [_exc(e)])
         return out
+    # the grid first (end points / monotonicity below use exactly these), then the alphabet values outside [-1, 1]
+    # (round trip only: inv(apply(x)) = x is demanded on the whole domain, not only on the normalised interval)
+    extra = [v for v in R.VALUES if abs(v) > 1.0]
     if kind == "vec":
-        grids = [np.array(R.GRID, dtype=np.float64).reshape(5, 1)]
+        grids = [np.array(R.GRID, dtype=np.float64).reshape(5, 1), np.array(extra, dtype=np.float64).reshape(len(extra), 1)]
+        n_grid = 1
     else:
-        grids = [np.float64(g) for g in R.GRID]
+        grids = [np.float64(g) for g in R.GRID + extra]
+        n_grid = 5
     ys = []
     for g in grids:
         x_ref = R.fill(shape, lambda i: g)
@@ -365,11 +413,11 @@ def run_den(case):
             return out
         ys.append(y)
     # explicit end points / monotonicity on the real outputs (flattened by the reference structure)
-    real_leaves = [_flat_real(y, sh_ref) for y in ys]
+    real_leaves = [_flat_real(y, sh_ref) for y in ys[:n_grid]]
     lo_l, hi_l = R.leaves(lo), R.leaves(hi)
     for li in range(len(lo_l)):
         if kind == "vec":
-            col = np.asarray(real_leaves[0][li], dtype=np.float64)  # (5, 15)
+            col = np.asarray(real_leaves[0][li], dtype=np.float64)  # (5, 15) or (5, 3)
         else:
             col = np.array([float(np.asarray(real_leaves[g][li])) for g in range(5)]).reshape(5, 1)
         mn = np.broadcast_to(lo_l[li].v, col.shape[1:])
